@@ -6,10 +6,10 @@ package classifier
 
 import (
 	"bytes"
-	"math"
 	"errors"
 	"fmt"
 	"io"
+	"math"
 	"os"
 	"sort"
 	"strings"
@@ -410,8 +410,8 @@ type v2ChunkReader struct {
 	data    []byte
 	chunks  []int // sizes, cycled
 	i       int
-	withEOF bool  // deliver the last bytes together with io.EOF
-	failAt  int   // fail with failErr once this many bytes were delivered (-1: never)
+	withEOF bool // deliver the last bytes together with io.EOF
+	failAt  int  // fail with failErr once this many bytes were delivered (-1: never)
 	failErr error
 	once    bool // the fault is transient: the Read after it succeeds again (a timeout)
 	withErr bool // the fault is reported by the same Read that delivers the last bytes before it (n > 0, err != nil)
